@@ -57,7 +57,7 @@ CLAIM = {
 }
 
 EXTRA_MODULES = ['FemtoVerif.Proofs.TreeLemmas']
-KEYS = ('cols', 'cfg', 'utrench', 'dirname', 'mutate', 'same_writer')
+KEYS = ('cols', 'cfg', 'utrench', 'dirname', 'mutate', 'same_writer', 'reassign')
 
 
 # ------------------------------------------------------------------------------------------------------------------
@@ -127,10 +127,15 @@ def gen_case(rng, directed=None):
                                      ('z_off', rng.choice([-0.01, 0.0])), ('nboxz', rng.choice([1, 2]))) if rng.random() < 0.5}
                   for _ in cols]
     cfg = gcommon.gen_cfg(rng, False, neutral_ok=True)
-    cfg['output_digits'] = 6
+    cfg['output_digits'] = rng.choice([6, 6, 6, 6, 4, 3])   # a reduced print resolution coarsens x / y / z words, never the depth bookkeeping
     cfg['export_dir'] = rng.choice(['', 'out', 'a/b'])
     cfg['filename'] = 'trenches.pgm'
-    return {'cols': cols, 'cfg': cfg, 'utrench': utrench, 'dirname': rng.choice(['TRENCH', 'TR', 'u-tr']), 'mutate': mutate, 'same_writer': rng.random() < 0.5}
+    reassign = None
+    if rng.random() < 0.15:
+        # the writer is re-referenced after it was built: origin and mirror settings reassigned on the object before the export
+        reassign = {'shift_origin': [round(rng.uniform(-1, 1), 3), round(rng.uniform(-1, 1), 3)], 'flip_x': not cfg.get('flip_x', False)}
+    return {'cols': cols, 'cfg': cfg, 'utrench': utrench, 'dirname': rng.choice(['TRENCH', 'TR', 'u-tr']), 'mutate': mutate, 'same_writer': rng.random() < 0.5,
+            'reassign': reassign}
 
 
 def build_guide(g):
@@ -260,6 +265,10 @@ def check_case(ctx, case):
                         setattr(tc, k, v)
                 if not case.get('same_writer'):
                     W = (UTrenchWriter if case['utrench'] else TrenchWriter)(cols, dirname=case['dirname'], **cfg)
+            if case.get('reassign'):
+                for k_, v_ in case['reassign'].items():
+                    setattr(W, k_, tuple(v_) if k_ == 'shift_origin' else v_)
+                    cfg[k_] = tuple(v_) if k_ == 'shift_origin' else v_
             # record what the writer hands to export_array2d (the leaf files): the call is passed on unchanged
             leaf_calls = []
             orig_export = W.export_array2d
@@ -353,7 +362,7 @@ def check_case(ctx, case):
             if model_l['err']:
                 continue
             scale = 4.0 + abs(float(cfg['shift_origin'][0])) + abs(float(cfg['shift_origin'][1]))
-            d = instr_diff(impl_l.get('instrs') or [], model_l['instrs'], scale * 2.0 ** -20 + 2e-6)
+            d = instr_diff(impl_l.get('instrs') or [], model_l['instrs'], scale * 2.0 ** -20 + 2e-6 + (0 if int(cfg.get('output_digits', 6)) >= 6 else 10.0 ** -int(cfg['output_digits'])))
             if d:
                 ctx.fail('corr', 'leaf', {**info, 'file': rel}, f'{rel}: the leaf file differs from the model of export_array2d: {d}', 'leaf:model')
         for ci, name, off in far:
@@ -362,7 +371,7 @@ def check_case(ctx, case):
             if model_f['err']:
                 continue
             scale = 4.0 + abs(float(cfg['shift_origin'][0])) + abs(float(cfg['shift_origin'][1]))
-            d = instr_diff(impl_f.get('instrs') or [], model_f['instrs'], scale * 2.0 ** -20 + 2e-6)
+            d = instr_diff(impl_f.get('instrs') or [], model_f['instrs'], scale * 2.0 ** -20 + 2e-6 + (0 if int(cfg.get('output_digits', 6)) >= 6 else 10.0 ** -int(cfg['output_digits'])))
             if d:
                 ctx.fail('corr', 'farcall', {**info, 'file': name, 'col': ci}, f'{name}: the call file differs from the compile-side model: {d}', 'farcall:model')
         T = res[0]
@@ -374,6 +383,7 @@ def check_case(ctx, case):
         ctx.count('tree.columns', str(len(cols)))
         ctx.count('tree.empty_columns', str(sum(1 for c_ in cols if len(list(c_)) == 0)))
         ctx.count('tree.kind', 'U' if case['utrench'] else 'plain')
+        ctx.count('tree.writer_settings', 'reassigned-after-construction' if case.get('reassign') else 'as-constructed')
         ctx.count('tree.history', ('second-export' + ('/same-writer' if case.get('same_writer') else '/new-writer')) if case.get('mutate') is not None else 'fresh')
         ctx.count('tree.blocks', str(min(nb, 6)))
         ctx.count('tree.files', str(len(files) // 5 * 5) + '+')
@@ -397,7 +407,9 @@ def check_case(ctx, case):
             for lp in f['loops']:
                 if not lp['wall_loop']:
                     ctx.fail('corr', 'shape', {**info, 'file': f['name'], 'loop': lp}, f'{f["name"]}: a loop that is not of the wall-loop shape [DWELL] FARCALL; $ZCURR += dz; G1 Z$ZCURR', 'shape:loop')
-        tol0 = 3e-6
+        digits = int(cfg.get('output_digits', 6))
+        coarse = 0.0 if digits >= 6 else 0.75 * 10.0 ** -digits      # rounding of printed coordinates at a reduced resolution
+        tol0 = 3e-6 + coarse
         fail = []
 
         def err(sig, msg, extra=None):
@@ -537,7 +549,7 @@ def check_case(ctx, case):
                 ctx.fail('corr', 'n_repeat', {**info, 'col': ci, 'code': cols[ci].n_repeat, 'model': n}, f'n_repeat {cols[ci].n_repeat} differs from the model {n}', 'n_repeat')
             sched = [float(gcommon.fr(v)) for v in D['schedule']]
             floors = [float(gcommon.fr(v)) for v in D['floors']]
-            ztol = 2e-6 * neff * (max(n, cols[ci].n_repeat) + 2) + 1e-6
+            ztol = 2e-6 * neff * (max(n, cols[ci].n_repeat) + 2) + 1e-6 + coarse * neff
             for bi in range(len(blocks[ci])):
                 wz = [z * neff for z in passes.get((ci, 'wall', bi), []) if z is not None]
                 fz = [z * neff for z in passes.get((ci, 'floor', bi), []) if z is not None]
